@@ -6,18 +6,23 @@ DRIVER = "drv_devs"
 LEAN_MODULES = ["MesaModel.Props.C15"]
 THEOREMS = ["Mesa.Devs." + t for t in (
     "C15_chunking", "C15_fuel_irrelevant", "C15_abm_steps_eq_clock", "C15_step_once_per_tick",
-    "C15_step_always_armed", "C15_step_before_lower_priority", "C15_abm_steps_track_clock")]
+    "C15_step_always_armed", "C15_step_before_lower_priority", "C15_abm_steps_track_clock",
+    "C15_interrupted_run_resumed", "C15_normal_run_is_uninterrupted_run", "C15_chunking_with_exceptions",
+    "C15_abm_steps_eq_clock_after_resume")]
 COUNTS = {"quick": 500, "thorough": 150000}
 TRUSTED = [
     "CPython heapq pop-min; refcount weakref death; exact dyadic time arithmetic (see C14)",
     "Model._wrapped_step increments model.steps before the user's step body (property C05)",
+    "exceptions: IndexError / ValueError / KeyError raised by a callable or by the step body reach the caller of the run method, who catches them and goes on; an exception object stored by user code (which would keep callables alive through its traceback) is not modelled",
     "the user's step body is a command list; the solara front end's own threading is not modelled (it calls run_for(1) pieces, which are)",
 ]
 ASSUMPTIONS = ["event programs terminate; horizons are not before the clock",
                "no user event is scheduled with model.step itself as its callable (it would be re-armed as a second step stream)"]
-RULE = ("two streams: (a) chunking — programs + up-front events, then a random partition of [now, T] into run_until / run_for / "
-        "run_next_event pieces that stay within T, then run_until(T); the oracle re-runs the same program on the implementation in ONE "
-        "piece and compares the whole trace, clock and steps; (b) mixed ABM histories with the steps==clock clause. non-trivial = the "
+RULE = ("two streams: (a) chunking — programs (30% with a raise somewhere) + up-front events, then a random partition of [now, T] into "
+        "run_until / run_for / run_next_event pieces that stay within T (a piece may be cut short by an exception, which the program "
+        "catches), then run_until(T) again and again until it returns normally; the oracle re-runs the same program on the implementation "
+        "in ONE piece (run_until(T) resumed after every exception) and compares the whole trace, clock and steps; (b) mixed ABM histories, "
+        "shared-callable and raise streams with the steps==clock clause (steps tracks the clock in aborted states). non-trivial = the "
         "partition has >= 2 pieces and >= 2 events executed; distinct by sha1 of the op lines")
 
 
@@ -25,7 +30,15 @@ def gen_chunk(R):
     kind = R.choice(["abm", "abm", "devs"])
     base = D.gen_scenario(R, kind=kind, n_ops=0)
     lines = list(base.lines)
-    impl = D.Impl(kind, float_ticks=base.meta["float_ticks"])
+    if R.random() < 0.3:
+        # one of the programs (or the step body) raises somewhere: pieces are cut short, the program catches and goes on
+        idx = [i for i, l in enumerate(lines) if l.startswith(("prog ", "stepprog"))]
+        i = R.choice(idx)
+        head, _, body = lines[i].partition(" ") if lines[i].startswith("stepprog") else (" ".join(lines[i].split()[:2]), "", " ".join(lines[i].split()[2:]))
+        cmds = [c.strip() for c in body.split(";") if c.strip()]
+        cmds.insert(R.randrange(len(cmds) + 1), "raise " + R.choice(sorted(D.EXC)))
+        lines[i] = head + " " + " ; ".join(cmds)
+    impl = D.Impl(kind, float_ticks=base.meta["float_ticks"], methods=base.meta.get("methods"))
     for l in lines[1:]:
         impl.line(l.split())
     nact = sum(1 for l in lines if l.startswith("prog "))
@@ -60,9 +73,14 @@ def gen_chunk(R):
             l = "next"
         impl.line(l.split())
         lines.append(l)
-    lines.append(f"until {T}")
+    # to the horizon — again after every exception, until the call returns normally (every call executes at least one event)
+    n_pieces = len(lines) - n_setup
+    for _ in range(400):
+        lines.append(f"until {T}")
+        if impl.line(lines[-1].split()).startswith("ok"):
+            break
     meta = dict(base.meta)
-    meta.update(chunk=True, n_setup=n_setup, T=T)
+    meta.update(chunk=True, n_setup=n_setup, T=T, n_pieces=n_pieces)
     return core.Scenario(lines, meta)
 
 
@@ -70,6 +88,10 @@ def generate(rng, tier, count):
     for i in range(count):
         if i % 3 != 2:
             yield gen_chunk(rng)
+        elif (i // 3) % 4 == 0:
+            yield D.gen_shared(rng)
+        elif (i // 3) % 4 == 1:
+            yield D.gen_raise(rng)
         else:
             yield D.gen_scenario(rng, kind="abm", run_weight=1.2)
 
@@ -85,13 +107,18 @@ def _exec_trace(sc):
 def oracle(sc, obs):
     bad = D.oracle(sc, obs, abm_clauses=True)
     if sc.meta.get("chunk"):
-        one = core.Scenario(sc.lines[: sc.meta["n_setup"]] + [sc.lines[-1]], {"float_ticks": sc.meta.get("float_ticks")})
+        # one piece = run_until(T), called again after every exception until it returns normally (further calls change nothing)
+        # (the same events raise in both runs, so as many calls as the pieces run made are enough)
+        one = core.Scenario(sc.lines[: sc.meta["n_setup"]] + [sc.lines[-1]] * (len(sc.lines) - sc.meta["n_setup"] + 1),
+                            {"float_ticks": sc.meta.get("float_ticks"), "methods": sc.meta.get("methods")})
         oobs = D.run_impl(one)
         if _exec_trace(one) != _exec_trace(sc):
             bad.append(f"chunk-trace: pieces executed {_exec_trace(sc)}, one piece executed {_exec_trace(one)}")
         fin = lambda o: " ".join(o[-1].split()[:3])  # noqa: E731  ok now=.. steps=..
         if fin(oobs) != fin(obs):
             bad.append(f"chunk-final: pieces end with '{fin(obs)}', one piece with '{fin(oobs)}'")
+        if not obs[-1].startswith("ok"):
+            bad.append(f"chunk-stuck: run_until({sc.meta['T']}) still raises after 400 resumed calls: {obs[-1]}")
     return bad
 
 
@@ -108,4 +135,9 @@ def tags(sc, obs):
         if w in ("until", "for", "next", "stepprog"):
             yield "op:" + w
     if sc.meta.get("chunk"):
-        yield f"pieces:{len(sc.lines) - sc.meta['n_setup'] - 1}"
+        yield f"pieces:{sc.meta.get('n_pieces', len(sc.lines) - sc.meta['n_setup'] - 1)}"
+        if any(o.startswith("err Raised") for o in obs):
+            yield "branch:chunk-piece-cut-short-by-exception"
+            yield f"resumes:{min(sum(1 for o in obs if o.startswith('err Raised')), 6)}"
+    yield from sorted(D.raise_tags(sc, sc.meta.get("trace") or []))
+    yield from sorted(D.shared_tags(sc.meta.get("trace") or []))
